@@ -37,6 +37,19 @@ def impl_time_us(impl, ticks, resol, offset):
         return "Exn"
 
 
+def impl_legacy_us(impl, sec, sub, nano):
+    """one record of a legacy pcap through dpkt.pcap.Reader, main.py's float(ts) and the writer -> the microseconds written, or 'Exn'"""
+    import dpkt
+    try:
+        data = synth.pcap_legacy([(sec, sub, b"\0" * 14)], nano=nano)
+        ts = [t for t, _ in dpkt.pcap.Reader(io.BytesIO(data))][0]
+        out = io.BytesIO()
+        dpkt.pcapng.Writer(out, snaplen=20000).writepkt(b"\0" * 14, float(ts))
+        return readback.read_pcapng(out.getvalue())[0][0]
+    except Exception as e:
+        return "Exn"
+
+
 def zhex(v):
     return ("-" if v < 0 else "") + "%x" % abs(v)
 
@@ -187,6 +200,21 @@ def main():
         ck.case(("time-u", ticks, resol, off))
         if mcanon != got:
             disagreements.append({"what": "time_us %d / %d + %s" % (ticks, k, off), "model": mt, "impl": str(got)})
+    # legacy records (tv_sec, tv_usec / tv_nsec) at the function level: C12_time_seconds_and_microseconds / C12_time_legacy for the model
+    for j in range(n_time // 2):
+        nano = j % 2 == 1
+        sec = rng.choice([rng.randrange(1, 2 ** 31), rng.randrange(2 ** 31, 2251799813), rng.randrange(17 * 10 ** 8, 18 * 10 ** 8), 2251799812] +
+                         ([] if nano else [rng.randrange(2251799813, 2 ** 32 - 1), 2 ** 32 - 2]))
+        u = rng.choice([rng.randrange(10 ** 6), 0, 999999, 500000])
+        got = impl_legacy_us(impl, sec, u * 1000 if nano else u, nano)
+        hist["time_legacy=%s" % ("nano" if nano else "micro")] += 1
+        ck.case(("time-l", sec, u, nano))
+        if got != sec * 10 ** 6 + u:
+            fails.append({"what": "time stamp: legacy %s record %d s + %d us exported as %s" % ("nanosecond" if nano else "microsecond", sec, u, got), "args": ["-l"]})
+        if m:
+            mt = m.ask("legacyus", "1" if nano else "0", zhex(sec), zhex(u * 1000 if nano else u))
+            if mt != "Some " + zhex(sec * 10 ** 6 + u) and got == sec * 10 ** 6 + u:
+                disagreements.append({"what": "legacy_us %s %d %d" % (nano, sec, u), "model": mt, "impl": str(got)})
     if m:
         ck.cov["oracle_queries"] = m.queries
         ck.cov["model_runs_skipped"] = m.skipped
